@@ -366,6 +366,42 @@ func execOnce(sc *Scenario, root common.Hash, t account.AccountDatabase) outcome
 	return outcome{r, ev, rc, st, txs}
 }
 
+// execOnState: the block executed on a state handle that was opened earlier
+func execOnState(sc *Scenario, st *account.AccountDB) outcome {
+	blk := mkBlock(sc)
+	r, ev, txs, rc := coreExecute(st, blk, situationOf(sc))
+	return outcome{r, ev, rc, st, txs}
+}
+
+// overlapped: several state handles are opened on the same parent root FIRST and the block is
+// executed on them afterwards — two one after the other, two at the same time (a cast running in a
+// goroutine while a competing block on the same parent is verified; two sibling verifications).
+// Handles on one root must not share anything mutable: every result must be the one a handle
+// opened right before its execution gives.
+func overlapped(sc *Scenario, root common.Hash, t account.AccountDatabase) []string {
+	var sts []*account.AccountDB
+	for k := 0; k < 4; k++ {
+		st, err := account.NewAccountDB(root, t)
+		if err != nil {
+			panic(err)
+		}
+		sts = append(sts, st)
+	}
+	fps := make([]string, 4)
+	fps[0] = hx.Guard(func() string { return execOnState(sc, sts[0]).fingerprint() })
+	fps[1] = hx.Guard(func() string { return execOnState(sc, sts[1]).fingerprint() })
+	var wg sync.WaitGroup
+	for k := 2; k < 4; k++ {
+		wg.Add(1)
+		go func(k int) {
+			defer wg.Done()
+			fps[k] = hx.Guard(func() string { return execOnState(sc, sts[k]).fingerprint() })
+		}(k)
+	}
+	wg.Wait()
+	return fps
+}
+
 // fingerprint: everything the property names — root, receipts (consensus JSON and Msg), evicted list.
 func (o outcome) fingerprint() string {
 	var sb strings.Builder
@@ -2141,6 +2177,25 @@ func nfold(sc *Scenario, n int) map[string]int {
 			mark(i, n, fp)
 			continue
 		}
+		if i == 3 && len(sc.GlobalHeights) == 0 {
+			ref := ""
+			for k := range res {
+				if !strings.HasPrefix(k, "PARENT-ROOT-DIFFERS") {
+					ref = k
+				}
+			}
+			// on a parent state that was just committed and has not been opened by anybody yet (what a
+			// node has right after adding the parent block)
+			rootO, tO := buildParent(sc)
+			agreed := len(res) == 1
+			for _, fp := range overlapped(sc, rootO, tO) {
+				if fp != ref && agreed {
+					fp = "OVERLAPPED-HANDLES " + fp
+				}
+				res[fp]++
+			}
+			continue
+		}
 		if i%8 == 5 && keptBlock != nil && sc.Situation == orig {
 			// reference: fresh objects carrying the same transactions in the order the kept block has
 			// NOW (sort.Sort worked in place; with a Less that is no strict weak order, sorting a second
@@ -2214,13 +2269,18 @@ func classify(sc *Scenario, res map[string]int) (string, string) {
 	}
 	plain := 0
 	for k := range res {
-		if !strings.HasPrefix(k, "CONCURRENT ") && !strings.HasPrefix(k, "SEQUENTIAL ") && !strings.HasPrefix(k, "REUSED-BLOCK-OBJECT") &&
+		if !strings.HasPrefix(k, "CONCURRENT ") && !strings.HasPrefix(k, "SEQUENTIAL ") && !strings.HasPrefix(k, "REUSED-BLOCK-OBJECT") && !strings.HasPrefix(k, "OVERLAPPED-HANDLES") &&
 			!strings.HasPrefix(k, "RETAINED-RESULT-CHANGED") && !strings.HasPrefix(k, "PARENT-ROOT-DIFFERS") {
 			plain++
 		}
 	}
 	// the special phases only name the class when the ordinary repetitions agree among themselves
 	if plain <= 1 {
+		for k := range res {
+			if strings.HasPrefix(k, "OVERLAPPED-HANDLES ") {
+				return "overlapping-state-handles", "state handles opened on the same parent root before any of them was executed influence each other: a block executed on a handle that was opened while another handle on that root was still unexecuted gives another result than on a freshly opened one (shared mutable trie / objects behind NewAccountDB)"
+			}
+		}
 		for k := range res {
 			if strings.HasPrefix(k, "CONCURRENT ") {
 				return "concurrent-execution-differs", "a block executed while other blocks are being executed by other goroutines gave another result than alone"
@@ -2273,7 +2333,7 @@ func classify(sc *Scenario, res map[string]int) (string, string) {
 		if strings.HasPrefix(k, "PARENT-ROOT-DIFFERS") {
 			continue
 		}
-		for _, pre := range []string{"CONCURRENT ", "SEQUENTIAL ", "REUSED-BLOCK-OBJECT ", "RETAINED-RESULT-CHANGED "} {
+		for _, pre := range []string{"CONCURRENT ", "SEQUENTIAL ", "REUSED-BLOCK-OBJECT ", "RETAINED-RESULT-CHANGED ", "OVERLAPPED-HANDLES "} {
 			k = strings.TrimPrefix(k, pre)
 		}
 		if i := strings.Index(k, " ev="); i >= 0 {
